@@ -2041,6 +2041,9 @@ def unflatten(array, counts, axis=0, highlevel=True, behavior=None):
             # which is computed with these layouts applied, aligns with the
             # internal layout to be unflattened (#910)
             layout = _pack_layout(layout)
+            if isinstance(layout, ak.layout.NumpyArray) and layout.ndim > 1:
+                # the dimensions of an n-d array are regular list levels
+                layout = layout.toRegularArray()
 
             posaxis = layout.axis_wrap_if_negative(posaxis)
             if posaxis == depth and isinstance(layout, ak._util.listtypes):
